@@ -52,7 +52,7 @@ BUDGET = {
     "quick": {"faultfree": 50000, "faulty": 50000},
     "thorough": {"faultfree": 1000000, "faulty": 1000000},
 }
-FAULT_KINDS = ["delay", "yield", "stall", "cancel", "storeerr"]
+FAULT_KINDS = ["delay", "yield", "stall", "cancel", "storeerr", "badtext"]
 TIME_UNIT = "virtual seconds on SimLoop's clock (orders getter completions and stalls); logical steps = loop iterations"
 RULE = (
     "one run = 1-3 documents (each also wrapped in SimMap/SimSeq at all or some levels), 3-10 jobs (query, document, "
@@ -94,6 +94,10 @@ def generate(seed: int, config: str, tier: str) -> Dict[str, Any]:
         # documents that differ only in a few places (what a state leak between concurrent evaluations would mix up)
         base = docs[0]
         docs = [base] + [_variant(rng, base) for _ in range(rng.randint(1, 3))]
+    if rng.random() < 0.06:
+        # a JSON document that is a string -- whose content happens to look like JSON itself.  Only ever supplied as
+        # JSON text or a stream (a Python str handed over as "the parsed value" would be taken for JSON text)
+        docs.append(rng.choice(["12", "[1, 2]", "{\"a\": [1, 2]}", "abc", "", "null"]))
     wraps = []
     for _ in docs:
         mode = rng.choice(["all", "all", "depths", "depths", "none"])
@@ -110,7 +114,7 @@ def generate(seed: int, config: str, tier: str) -> Dict[str, Any]:
         opts["p_trip"] = 0.2  # filters that die with JSONPathTypeError at evaluation time (jpsim/tripwire.py)
     queries: List[str] = []
     for _ in range(rng.randint(2, 6)):
-        d = rng.choice(docs)
+        d = rng.choice([x for x in docs if not isinstance(x, str)])
         queries.extend(gen_query.gen_queries(rng, _SCRATCH_ENV, d, 1, ctx_doc=ctxdoc, opts=opts, p_compound=0.2))
     if rng.random() < 0.1:
         # a text the environment refuses: the async entry points that take text must refuse it the same way
@@ -136,7 +140,14 @@ def generate(seed: int, config: str, tier: str) -> Dict[str, Any]:
             }
         )
     clients = [c for c in clients if c]
+    for c in clients:
+        for job in c:
+            if isinstance(docs[job["d"]], str) and job["form"] == "obj":
+                job["form"] = rng.choice(["text", "stringio", "bytesio", "simfile"])
     faults: Dict[str, Any] = {"storeerr": [], "cancels": []}
+    if faulty and frng.random() < 0.1:
+        # the text / stream forms of one document are cut short: undecodable for sync and async alike
+        faults["badtext"] = [frng.randrange(len(docs)), frng.choice([1, 2, 5, 9])]
     if faulty:
         kinds = [k for k in ("storeerr", "cancel") if frng.random() < 0.7] or ["cancel"]
         if "storeerr" in kinds:
@@ -278,6 +289,10 @@ def execute(spec: Dict[str, Any], ctx: Ctx) -> None:
         if form == "obj":
             return docs_w[di]
         text = json.dumps(plan["docs"][di])
+        bt = plan["faults"].get("badtext")
+        if bt and bt[0] % len(plan["docs"]) == di:
+            text = text[: max(1, len(text) - int(bt[1]))]
+            ctx.count("fault.badtext.fired")
         if form == "text":
             return text
         if form == "stringio":
@@ -311,11 +326,40 @@ def execute(spec: Dict[str, Any], ctx: Ctx) -> None:
 
     refs: Dict[Tuple[str, str, int, int, str], _Ref] = {}
 
+    def two_lurking(key: Tuple[str, str, int, int, str], got_exc: str, ref_exc: str) -> bool:
+        """Both twins raise, different classes.  Not judged iff an item getter of this run is made to fail and *both*
+        classes are errors that lurk in this (query, document) anyway -- the class of a configured getter failure,
+        or what the sync twin raises with the getter failures switched off: which of two lurking errors surfaces
+        first depends on evaluation order alone, and a getter that raises is this harness's fault injection, not a
+        document of the statement.  A class that comes from nowhere (an error re-labelled on the way) is judged."""
+        if strict_prefix:
+            return False
+        from jpsim.store import ERR_KINDS
+
+        lurking = {ERR_KINDS[f[2] if len(f) > 2 else "store"].__name__ for f in plan["faults"]["storeerr"]}
+        saved = dict(store.failing)
+        store.failing.clear()
+        try:
+            plain = sync_ref(*key).exc
+        finally:
+            store.failing.update(saved)
+        if plain:
+            lurking.add(plain)
+        if "tripwire(" in texts[key[2]]:
+            lurking.add("JSONPathTypeError")
+        if got_exc in lurking and ref_exc in lurking:
+            ctx.count("probe.two_lurking_errors_under_store_fault")
+            return True
+        return False
+
     def rkey(job: Dict[str, Any]) -> Tuple[str, str, int, int, str]:
         level, meth = job["entry"].split(".")
         if level == "compiled" and compiled[job["q"] % len(texts)] is None:
             level = "env"
-        return (level, meth, job["q"] % len(texts), job["d"] % len(docs_w), job.get("form", "obj"))
+        form = job.get("form", "obj")
+        if form == "obj" and isinstance(plan["docs"][job["d"] % len(docs_w)], str):
+            form = "text"  # (a shrunk plan) a str is never handed over as the parsed value
+        return (level, meth, job["q"] % len(texts), job["d"] % len(docs_w), form)
 
     jobs_flat: List[Tuple[int, int, Dict[str, Any]]] = []
     for ci, jobs in enumerate(plan["clients"]):
@@ -396,8 +440,8 @@ def execute(spec: Dict[str, Any], ctx: Ctx) -> None:
         state["inflight"] += 1
         state["max_inflight"] = max(state["max_inflight"], state["inflight"])
         try:
-            data = data_for(job.get("form", "obj"), di)
-            if job.get("form", "obj") != "obj":
+            data = data_for(rkey(job)[4], di)
+            if rkey(job)[4] != "obj":
                 ctx.count("probe.async_text_or_stream_document")
             if level == "module":
                 target: Any = jsonpath
@@ -422,11 +466,7 @@ def execute(spec: Dict[str, Any], ctx: Ctx) -> None:
                 ctx.switch(ci)
                 ctx.log.add("done", ci, ji, "findall", got_exc or len(got_vals))
                 want_vals = [m[2] for m in ref.ms]
-                if got_exc and ref.exc and got_exc != ref.exc and not strict_prefix:
-                    # Both raise, an item getter of this run is made to fail, and two different errors lurk in the
-                    # query: which one surfaces first depends on evaluation order alone.  A getter that raises is
-                    # this harness's fault injection, not a document of the statement: not judged.
-                    ctx.count("probe.two_lurking_errors_under_store_fault")
+                if got_exc and ref.exc and got_exc != ref.exc and two_lurking(rkey(job), got_exc, ref.exc):
                     return
                 if got_exc != ref.exc:
                     raise Violation(
@@ -471,8 +511,7 @@ def execute(spec: Dict[str, Any], ctx: Ctx) -> None:
                 got_exc = type(e).__name__
             ctx.switch(ci)
             ctx.log.add("done", ci, ji, "finditer", got_exc or len(got_ms))
-            if got_exc and ref.exc and got_exc != ref.exc and not strict_prefix:
-                ctx.count("probe.two_lurking_errors_under_store_fault")  # see above
+            if got_exc and ref.exc and got_exc != ref.exc and two_lurking(rkey(job), got_exc, ref.exc):
                 return
             if got_exc != ref.exc:
                 raise Violation(
@@ -571,6 +610,10 @@ def shrink_plan(plan: Dict[str, Any]) -> Iterator[Dict[str, Any]]:
             p["faults"] = dict(plan["faults"])
             p["faults"][key] = fl
             yield p
+    if plan["faults"].get("badtext"):
+        p = dict(plan)
+        p["faults"] = {k: v for k, v in plan["faults"].items() if k != "badtext"}
+        yield p
     if plan["faults"].get("cancel_budget"):
         p = dict(plan)
         p["faults"] = dict(plan["faults"])
